@@ -156,8 +156,76 @@ class Fresh:
                     self.cache[key] = ("exc", type(ex).__name__, None)
         return self.cache[key]
 
+    def band(self, key, v):
+        """discretisation band of `key` from one grid refinement (N -> 2N, same origin, half the spacing):
+        max |v_N - v_2N at the coarse points| (None if not comparable)"""
+        if ("band", key) not in self.cache:
+            fine = Fresh(dict(self.cfg, N=2 * self.cfg["N"]))
+            f = fine.get(key)
+            est = None
+            if f[0] == "ok":
+                try:
+                    a, b = np.asarray(v, dtype=complex), np.asarray(f[1], dtype=complex)
+                    b = b[..., ::2, ::2, ::2]
+                    if a.shape == b.shape:
+                        fin = np.isfinite(a) & np.isfinite(b)
+                        est = float(np.max(np.abs(a[fin] - b[fin]))) if fin.any() else 0.0
+                except Exception:  # noqa
+                    est = None
+            self.cache[("band", key)] = est
+        return self.cache[("band", key)]
 
-def oracle_history(ctx, cfg, ops, tag, stats):
+
+def within_band(a, b, band):
+    try:
+        a, b = np.asarray(a, dtype=complex), np.asarray(b, dtype=complex)
+    except Exception:  # noqa
+        return None
+    if a.shape != b.shape:
+        return "shape differs"
+    fin = np.isfinite(a) & np.isfinite(b)
+    if not fin.any():
+        return None
+    d = float(np.max(np.abs(a[fin] - b[fin])))
+    scale = float(np.max(np.abs(b[fin])))
+    tol = 10 * band + 1e-9 * (1 + scale)
+    return None if d <= tol else "max |diff| = %.3e > band %.3e (scale %.3e)" % (d, tol, scale)
+
+
+_DOWN = {}
+
+
+def downstream(info, roots):
+    """keys whose value depends (through any path of any shape) on one of `roots`"""
+    key = tuple(roots)
+    if key not in _DOWN:
+        deps = {}
+        for k, sh in info["shapes"].items():
+            d = set()
+            depgraph.walk_shape(sh, [], lambda r, g, d=d: d.add(r), lambda p, g, d=d: d.add(p))
+            deps[k] = d
+        out = set(roots)
+        changed = True
+        while changed:
+            changed = False
+            for k, d in deps.items():
+                if k not in out and d & out:
+                    out.add(k)
+                    changed = True
+        _DOWN[key] = out
+    return _DOWN[key]
+
+
+def cause_of(cfg, key, info):
+    """root cause classification used in fingerprints (known findings)"""
+    ins = set(C03.input_keys(cfg))
+    if info is not None and ({"betay", "betaz"} & ins) and not ({"betax", "betaup3"} & ins) \
+            and key in downstream(info, ("st_Weyl_down4", "st_Riemann_down4")):
+        return "s_to_st-partial-shift"
+    return ""
+
+
+def oracle_history(ctx, cfg, ops, tag, stats, info=None):
     """run the history on the real code, compare every value with a fresh instance"""
     fresh = Fresh(cfg)
     found = [0]
@@ -175,18 +243,23 @@ def oracle_history(ctx, cfg, ops, tag, stats):
             stats["same_alternatives"] += 1
             d = same_value(v, f[1], 0.0)
         elif pv is not None and f[2] is not None and pv[1] != f[2][1]:
-            # alternatives that agree only on solutions / up to discretisation error: not compared on generic data
-            stats["solution_only_alternatives_skipped"] += 1
-            return
+            # alternatives that agree only on solutions of Einstein's equations and up to discretisation error:
+            # compared (within a band from one grid refinement) on exact-solution inputs only
+            band = fresh.band(key, f[1]) if cfg["inputs"].startswith("sol:") and isinstance(f[1], np.ndarray) else None
+            if band is None:
+                stats["solution_only_alternatives_skipped"] += 1
+                return
+            stats["solution_only_alternatives_band"] += 1
+            d = within_band(v, f[1], band)
         else:
             stats["algebraic_alternatives"] += 1
             d = same_value(v, f[1], ALG_RTOL)
         if d:
             found[0] += ctx.violation(
                 "%s: value of %r after the history differs from a fresh instance (%s; %s)"
-                % (tag, key, d, "same alternatives" if same_alt else "different algebraic alternatives"),
+                % (tag, key, d, "same alternatives" if same_alt else "different alternatives"),
                 {"kind": "history", "cfg": cfg, "ops": ops[: i + 1], "key": key, "difference": d},
-                {"site": "value", "key": key, "inputs": cfg["inputs"]})
+                {"site": "value", "cause": cause_of(cfg, key, info), "key": key, "inputs": cfg["inputs"]})
 
     rel, fails = C03.execute(cfg, ops, on_value=on_value)
     for f in fails:
@@ -277,7 +350,7 @@ def targeted(info, rng, keys):
 def search(ctx, info, nhist, nreq):
     keys = C03.description_keys()
     stats = dict.fromkeys(("compared", "same_alternatives", "algebraic_alternatives",
-                           "solution_only_alternatives_skipped", "fresh_raises", "same_exception_as_fresh"), 0)
+                           "solution_only_alternatives_skipped", "solution_only_alternatives_band", "fresh_raises", "same_exception_as_fresh"), 0)
     runs = []
     found = 0
     # targeted histories: the two that exposed the (now fixed) Momentum cycle and eps = -1, then all guards
@@ -296,9 +369,11 @@ def search(ctx, info, nhist, nreq):
     ]
     base = {"N": 8, "order": 2, "variant": 0, "vacuum": False, "Lambda": 0.0, "tetrad": "quasi-Kinnersley", "period": 1,
             "thr_scalars": 0.25, "drop": []}
+    fixed.append(("s_to_st-partial-shift", {"inputs": "partial_shift", "vacuum": True, "period": 20, "thr_scalars": 10 ** 6},
+                  [["get", "betaup3"], ["get", "st_Weyl_down4"]]))
     for tag, over, ops in fixed:
         cfg = dict(base, **over)
-        rel, n = oracle_history(ctx, cfg, ops, tag, stats)
+        rel, n = oracle_history(ctx, cfg, ops, tag, stats, info)
         found += n
         runs.append((cfg, ops, rel))
     tg = targeted(info, ctx.rng, keys)
@@ -306,16 +381,17 @@ def search(ctx, info, nhist, nreq):
     ctx.rng.shuffle(tg)
     ntg = ctx.budget(45, len(tg))
     for k, ops in tg[:ntg]:
-        cfg = dict(base, inputs=ctx.rng.choice(["tensors", "components", "rho0zeros", "rho_only", "noshift"]),
+        cfg = dict(base, inputs=ctx.rng.choice(["tensors", "components", "rho0zeros", "rho_only", "noshift",
+                                                "sol:Collins_Stewart", "sol:Collins_Stewart", "sol:Non_diagonal"]),
                    order=ctx.rng.choice((2, 4)), vacuum=ctx.rng.random() < 0.15)
-        rel, n = oracle_history(ctx, cfg, ops, "guard of " + k, stats)
+        rel, n = oracle_history(ctx, cfg, ops, "guard of " + k, stats, info)
         found += n
         runs.append((cfg, ops, rel))
     for h in range(nhist):
         cfg = C03.gen_config(ctx.rng, ctx.tier)
-        inputs = [e if isinstance(e, str) else e[0] for e in C03.INPUT_SETS[cfg["inputs"]]]
+        inputs = C03.input_keys(cfg)
         ops = gen_ops(ctx.rng, ctx.rng.randrange(nreq // 2, nreq + 1), keys, inputs)
-        rel, n = oracle_history(ctx, cfg, ops, "random history %d" % h, stats)
+        rel, n = oracle_history(ctx, cfg, ops, "random history %d" % h, stats, info)
         found += n
         runs.append((cfg, ops, rel))
     ctx.cov["oracle_histories"] = len(runs)
@@ -339,7 +415,9 @@ def run(ctx):
         "oracle tolerances: bitwise when history and fresh instance used the same alternatives everywhere in the "
         "computation tree; %g relative when only algebraically equivalent alternatives differ; alternatives that agree "
         "only on solutions of Einstein's equations (st_Ricci_down4, st_Ricci_down3, st_Weyl_down4, Weyl_Psi with Psi4 "
-        "given) are not compared on the generic (non-solution) test fields" % ALG_RTOL]
+        "given) are compared on the exact solutions shipped with aurel (Collins_Stewart, Non_diagonal, "
+        "Rosquist_Jantzen at t = 1.5) within a band of 10 x the change of the fresh value under one grid refinement, and "
+        "are not compared on the generic (non-solution) hand-made fields" % ALG_RTOL]
     info = None
     try:
         changed, info = depgraph.regen()
@@ -382,9 +460,13 @@ def replay(ctx, obj):
         print("replay: not a history replay (kind=%s): %s" % (obj.get("kind"), obj.get("what")))
         return 1
     stats = dict.fromkeys(("compared", "same_alternatives", "algebraic_alternatives",
-                           "solution_only_alternatives_skipped", "fresh_raises", "same_exception_as_fresh"), 0)
+                           "solution_only_alternatives_skipped", "solution_only_alternatives_band", "fresh_raises", "same_exception_as_fresh"), 0)
     n0 = len(ctx.violations) + len(ctx.known)
-    oracle_history(ctx, obj["cfg"], obj["ops"], "replay", stats)
+    try:
+        info = depgraph.analyse()
+    except Exception:  # noqa
+        info = None
+    oracle_history(ctx, obj["cfg"], obj["ops"], "replay", stats, info)
     n = len(ctx.violations) + len(ctx.known) - n0
     print("replay: %d failure(s) now; %s" % (n, stats))
     return 1 if n else 0
